@@ -186,3 +186,136 @@ Section Ghost.
     - reflexivity.
   Qed.
 End Ghost.
+
+(* ---------- unknown fields are dropped in their entirety ---------- *)
+Section Unknown.
+  Variable cfg : bcfg.
+  Notation F := (c_fops cfg).
+  Notation W := (walk F (ops_doc cfg)).
+
+  (* the specification walk never looks at (or changes) the cursor it is handed *)
+  Lemma doc_dispatch_cursor iskey h v c :
+    doc_dispatch cfg iskey h v c = do r <- doc_dispatch cfg iskey h v CDone; Ok (fst r, c).
+  Proof.
+    destruct v as [s|c0|vs|fs g].
+    - destruct h, s, iskey; cbn [doc_dispatch obind fst]; try reflexivity; destruct (scalar_prim cfg _); reflexivity.
+    - destruct iskey, h; reflexivity.
+    - destruct iskey, h; try reflexivity; destruct vs; reflexivity.
+    - destruct iskey, h; reflexivity.
+  Qed.
+
+  Lemma doc_seq_exit_cursor h c sub dr :
+    doc_seq_exit h c sub dr = do r <- doc_seq_exit h CDone sub dr; Ok c.
+  Proof. destruct h, dr, sub as [[|? ?]|? ? ?|]; reflexivity. Qed.
+
+  Lemma doc_walk_cursor fuel : forall iskey sh v c,
+    W fuel iskey sh v c = do r <- W fuel iskey sh v CDone; Ok (fst r, c).
+  Proof.
+    induction fuel as [|f IH]; intros iskey sh v c; [reflexivity|].
+    assert (P : walk_plain F (ops_doc cfg) (W f) f iskey sh v c
+                = do r <- walk_plain F (ops_doc cfg) (W f) f iskey sh v CDone; Ok (fst r, c)).
+    { unfold walk_plain. cbn [p_dispatch ops_doc]. rewrite (doc_dispatch_cursor iskey (hint_of sh) v c).
+      destruct (doc_dispatch cfg iskey (hint_of sh) v CDone) as [[a st]| | | |]; cbn [obind fst]; try reflexivity.
+      destruct a as [p|sub|c0|sub]; cbn [p_color p_seq_exit p_map_exit ops_doc].
+      - destruct (visit_prim F sh p); reflexivity.
+      - destruct (visit_seq _ f sh sub) as [[[dv s'] dr]| | | |]; cbn [obind fst snd]; try reflexivity.
+        rewrite (doc_seq_exit_cursor (hint_of sh) c s' dr), (doc_seq_exit_cursor (hint_of sh) st s' dr).
+        destruct (doc_seq_exit (hint_of sh) CDone s' dr); reflexivity.
+      - destruct (color_visit cfg f sh c0); reflexivity.
+      - destruct (visit_map _ _ f sh sub) as [[dv s']| | | |]; reflexivity. }
+    destruct sh; cbn [walk]; try exact P.
+    - rewrite (IH iskey sh v c). destruct (W f iskey sh v CDone) as [[dv s']| | | |]; reflexivity.
+    - reflexivity.
+    - unfold walk_enum. cbn [p_dispatch ops_doc]. rewrite (doc_dispatch_cursor iskey HIdent v c).
+      destruct (doc_dispatch cfg iskey HIdent v CDone) as [[a st]| | | |]; cbn [obind fst]; try reflexivity.
+      destruct a; try reflexivity. destruct (visit_variant variants p); reflexivity.
+  Qed.
+
+  Variable fuel : nat.
+  Variable tk : bool.
+  Variable fields : list field.
+  Variable g : bool.
+  Notation K := (key_of (ops_doc cfg) (W fuel) true).
+  Notation V := (value_of (ops_doc cfg) (W fuel)).
+  Notation SL := (struct_loop K V).
+
+  (* what one field does to the slots: independent of the fields that follow *)
+  Definition field_eff (x : bfield) (sl : slots) : outcome slots :=
+    do r <- doc_dispatch cfg true (if tk then HU16 else HIdent) (VScalar (bf_key x)) CDone;
+    match fst r with
+    | APrim p =>
+      do i <- visit_field fields p;
+      match i with
+      | None => do _ <- W fuel false ShIgn (bf_val x) CDone; Ok sl
+      | Some i =>
+        match nth_error fields i with
+        | None => Panic 9004
+        | Some fd => do _ <- slot_pre sl (f_mode fd) i;
+                     do r <- W fuel false (f_shape fd) (bf_val x) CDone;
+                     Ok (slot_put sl (f_mode fd) i (fst r))
+        end
+      end
+    | _ => Err EC_DE
+    end.
+
+  Lemma loop_step n x r sl :
+    SL (S n) tk fields (CMap (x :: r) g None) sl = do sl' <- field_eff x sl; SL n tk fields (CMap r g None) sl'.
+  Proof.
+    cbn [struct_loop]. unfold key_of at 1. cbn [p_next_key p_dispatch ops_doc doc_next_key obind].
+    unfold field_eff. rewrite (doc_dispatch_cursor true _ (VScalar (bf_key x)) (CMap r g (Some (bf_val x)))).
+    destruct (doc_dispatch cfg true (if tk then HU16 else HIdent) (VScalar (bf_key x)) CDone) as [[a st]| | | |];
+      cbn [obind fst]; try reflexivity.
+    destruct a as [p| | |]; try reflexivity.
+    destruct (visit_field fields p) as [[i|]| | | |]; cbn [obind]; try reflexivity.
+    - destruct (nth_error fields i) as [fd|]; [|reflexivity].
+      destruct (slot_pre sl (f_mode fd) i); cbn [obind]; try reflexivity.
+      unfold value_of. cbn [p_next_value ops_doc doc_next_value obind].
+      rewrite (doc_walk_cursor fuel false (f_shape fd) (bf_val x) (CMap r g None)).
+      destruct (W fuel false (f_shape fd) (bf_val x) CDone) as [[dv s']| | | |]; reflexivity.
+    - unfold value_of. cbn [p_next_value ops_doc doc_next_value obind].
+      rewrite (doc_walk_cursor fuel false ShIgn (bf_val x) (CMap r g None)).
+      destruct (W fuel false ShIgn (bf_val x) CDone) as [[dv s']| | | |]; reflexivity.
+  Qed.
+
+  Local Open Scope nat_scope.
+  Lemma loop_fuel l : forall n m sl, length l < n -> length l < m ->
+    SL n tk fields (CMap l g None) sl = SL m tk fields (CMap l g None) sl.
+  Proof.
+    induction l as [|x r IH]; intros n m sl Ln Lm; (destruct n as [|n]; [cbn in Ln; lia|]); (destruct m as [|m]; [cbn in Lm; lia|]).
+    - reflexivity.
+    - rewrite !loop_step. destruct (field_eff x sl); cbn [obind]; try reflexivity. apply IH; cbn [length] in *; lia.
+  Qed.
+
+  (* the key of the field does not name a field of the target *)
+  Definition unknown_key (x : bfield) : Prop :=
+    exists p, doc_dispatch cfg true (if tk then HU16 else HIdent) (VScalar (bf_key x)) CDone = Ok (APrim p, CDone) /\
+              visit_field fields p = Ok None.
+
+  Lemma field_eff_unknown x sl : unknown_key x -> 1 <= fuel -> field_eff x sl = Ok sl.
+  Proof.
+    intros (p & E & EV) L. unfold field_eff. rewrite E. cbn [obind fst]. rewrite EV. cbn [obind].
+    destruct fuel as [|f]; [lia|]. cbn [walk]. unfold walk_plain. cbn [hint_of p_dispatch ops_doc].
+    assert (ED : doc_dispatch cfg false HIgnored (bf_val x) CDone = Ok (APrim PUnit, CDone)).
+    { destruct (bf_val x) as [s| | |]; try reflexivity; destruct s; reflexivity. }
+    rewrite ED. reflexivity.
+  Qed.
+
+  Lemma loop_unknown l1 x l2 : unknown_key x -> 1 <= fuel -> forall n m sl,
+    length (l1 ++ l2) < n -> length (l1 ++ x :: l2) < m ->
+    SL m tk fields (CMap (l1 ++ x :: l2) g None) sl = SL n tk fields (CMap (l1 ++ l2) g None) sl.
+  Proof.
+    intros U L. induction l1 as [|y r IH]; intros n m sl Ln Lm.
+    - cbn [app] in *. destruct m as [|m]; [cbn in Lm; lia|]. rewrite loop_step, (field_eff_unknown x sl U L). cbn [obind].
+      apply loop_fuel; cbn [length] in *; lia.
+    - cbn [app] in *. destruct n as [|n]; [cbn in Ln; lia|]. destruct m as [|m]; [cbn in Lm; lia|].
+      rewrite !loop_step. destruct (field_eff y sl); cbn [obind]; try reflexivity. apply IH; cbn [length] in *; lia.
+  Qed.
+
+  Theorem unknown_field_skipped_spec l1 x l2 : unknown_key x -> length (l1 ++ x :: l2) < fuel ->
+    spec_value cfg fuel (ShStruct tk fields) (l1 ++ x :: l2) g = spec_value cfg fuel (ShStruct tk fields) (l1 ++ l2) g.
+  Proof.
+    intros U L. unfold spec_value, walk_root. cbn [visit_map].
+    rewrite (loop_unknown l1 x l2 U ltac:(lia) fuel fuel); [reflexivity| |exact L].
+    rewrite app_length in *. cbn [length] in L. lia.
+  Qed.
+End Unknown.
